@@ -26,6 +26,7 @@ import (
 	"go.uber.org/zap"
 
 	"github.com/mimiro-io/datahub/internal/conf"
+	"github.com/mimiro-io/datahub/internal/verifhook"
 )
 
 const StorageIDFileName = "DATAHUB_BACKUPID"
@@ -136,7 +137,9 @@ func (backupManager *BackupManager) DoNativeBackup() error {
 	if err != nil {
 		return err
 	}
+	verifhook.Point("backup.tmpcreated", tmpFilename)
 	since, err := backupManager.store.database.Backup(file, 0)
+	verifhook.Point("backup.written", tmpFilename)
 	if err == nil {
 		err = file.Sync()
 	}
@@ -150,6 +153,7 @@ func (backupManager *BackupManager) DoNativeBackup() error {
 	if err := os.Rename(tmpFilename, backupFilename); err != nil {
 		return err
 	}
+	verifhook.Point("backup.renamed", backupFilename)
 	backupManager.lastID = since
 
 	// store last id
